@@ -4,6 +4,7 @@ import (
 	"crypto/sha256"
 	"encoding/hex"
 	"fmt"
+	"net"
 	"net/url"
 	"regexp"
 	"strings"
@@ -41,6 +42,9 @@ func Normalize(zone string) (string, error) {
 	trimmed := removeSpace(zone)
 	if !certmagic.SubjectQualifiesForPublicCert(trimmed) {
 		return "", fmt.Errorf("acme: invalid zone for acme certificate")
+	}
+	if net.ParseIP(trimmed) != nil {
+		return "", fmt.Errorf("acme: ip address is not a valid zone")
 	}
 	if strings.Contains(trimmed, "*") {
 		return "", fmt.Errorf("acme: wildcard zone is not supported")
